@@ -105,6 +105,7 @@ package dir
 //@   ensures [ibits-same] abits[theIalloc] == old(abits)[theIalloc] @C05
 //@   ensures [E1-sound] emitSound(dip, start, dip.Size) @C13
 //@   ensures [E3-complete] emitComplete(dip, start, ite(result, dip.Size, emitlast + 128)) @C13
+//@   ensures [E4-unlimited] count == 18446744073709551615 ==> result @C13 @C10
 //@   ensures [E4-eof] result ==> (forall o uint64 :: emitted[o] ==> o < dip.Size) @C13
 //@   ensures [E5-progress] !result ==> emitany && emitlast >= start && emitlast < dip.Size @C13 @C06
 //@   ensures dirDone(dip, op) && dip.Size == old(dip.Size) && dip.Kind == 2
@@ -112,6 +113,7 @@ package dir
 //@   loop 0 invariant [snd] emitSound(dip, start, off)
 //@   loop 0 invariant [cpl] emitComplete(dip, start, off)
 //@   loop 0 invariant [last] (emitany ==> emitlast < off && emitlast >= start && emitted[emitlast]) && (!emitany ==> forall o uint64 :: !emitted[o])
+//@   loop 0 invariant [budget] n >= 64 && n - 64 <= 2*(off - start) && (off <= dip.Size || off == start) && dip.Size <= 1073774592
 //@   loop 0 decreases dip.Size - off
 //@   loop 0 invariant [ibits] abits[theIalloc] == old(abits)[theIalloc]
 
@@ -132,6 +134,7 @@ package dir
 //@   modifies dip.Dcache, dip.blks[*], dirtyinum, wroteinum, abits, op.Atxn.allocBnums, []uint64@alloctxn.AllocTxn.allocBnums, []uint8@buf.Buf.Data, buf.Buf.dirty, nfstypes.Entry3, cell:*nfstypes.Entry3, map[string]dcache.Dentry, emitted, emitany, emitlast, lastcookie, lastfileid, lastname, lasthino, lasthgen, lastattrid
 //@   ensures [ibits-same] abits[theIalloc] == old(abits)[theIalloc] @C05
 //@   ensures dip.Dcache != nil && fresh(dip.Dcache) && dip.Dcache.Lastoff == 0
+//@   ensures [S3-complete] emitComplete(dip, 0, dip.Size) @C10 @C02
 //@   assumes [S3-built] dcacheOK(dip)
 //@   ensures dirModsOK(dip, op) && dip.Size == old(dip.Size)
 
